@@ -212,6 +212,14 @@ void vec_arith(const char* tag, const V& a, const V& b, T k) {
   expect<T>((t + "-").c_str(), a - b, d, DESC2(a, b));
   expect<T>((t + "*number").c_str(), a * k, m, DESC1(a));
   expect<T>(("number*" + t).c_str(), k * a, m, DESC1(a));
+  expect<T>((t + "+ (named, temporary)").c_str(), a + V(b), s, DESC2(a, b));
+  expect<T>((t + "+ (temporary, named)").c_str(), V(a) + b, s, DESC2(a, b));
+  expect<T>((t + "+ (temporaries)").c_str(), V(a) + V(b), s, DESC2(a, b));
+  expect<T>((t + "- (named, temporary)").c_str(), a - V(b), d, DESC2(a, b));
+  expect<T>((t + "- (temporary, named)").c_str(), V(a) - b, d, DESC2(a, b));
+  expect<T>((t + "- (temporaries)").c_str(), V(a) - V(b), d, DESC2(a, b));
+  expect<T>((t + "*number (temporary)").c_str(), V(a) * k, m, DESC1(a));
+  expect<T>(("number*" + t + " (temporary)").c_str(), k * V(a), m, DESC1(a));
   V c = a;
   c += b;
   expect<T>((t + "+=").c_str(), c, s, DESC2(a, b));
@@ -274,6 +282,15 @@ void mat_arith(const char* tag, const M& A, const M& B, T k) {
   expect<T>((t + "-").c_str(), A - B, d, DESC2(A, B));
   expect<T>((t + "*number").c_str(), A * k, m, DESC1(A));
   expect<T>(("number*" + t).c_str(), k * A, m, DESC1(A));
+  // every value category of the operands (named - temporary, temporary - named, both temporaries): same results
+  expect<T>((t + "+ (named, temporary)").c_str(), A + M(B), s, DESC2(A, B));
+  expect<T>((t + "+ (temporary, named)").c_str(), M(A) + B, s, DESC2(A, B));
+  expect<T>((t + "+ (temporaries)").c_str(), M(A) + M(B), s, DESC2(A, B));
+  expect<T>((t + "- (named, temporary)").c_str(), A - M(B), d, DESC2(A, B));
+  expect<T>((t + "- (temporary, named)").c_str(), M(A) - B, d, DESC2(A, B));
+  expect<T>((t + "- (temporaries)").c_str(), M(A) - M(B), d, DESC2(A, B));
+  expect<T>((t + "*number (temporary)").c_str(), M(A) * k, m, DESC1(A));
+  expect<T>(("number*" + t + " (temporary)").c_str(), k * M(A), m, DESC1(A));
   M C = A;
   C += B;
   expect<T>((t + "+=").c_str(), C, s, DESC2(A, B));
@@ -385,12 +402,21 @@ void integer_grids() {
       if (!mine(idx++)) continue;
       vec_pair<LL, T>("Vector,Vector", a, b);
       vec_arith<LL, T>("Vector", a, b, (T)-3);
+      // both operands the SAME object (v.Dot(v), v.Cross(v), v.Dyadic(v), v + v): a shortcut keyed on the address is met here
+      if (&a == &b) {
+        vec_pair<LL, T>("Vector,Vector (one object)", a, a);
+        vec_arith<LL, T>("Vector (one object)", a, a, (T)2);
+      }
     }
   for (auto& a : pvs)
     for (auto& b : pvs) {
       if (!mine(idx++)) continue;
       vec_pair<LL, T>("PlanarVector,PlanarVector", a, b);
       vec_arith<LL, T>("PlanarVector", a, b, (T)5);
+      if (&a == &b) {
+        vec_pair<LL, T>("PlanarVector,PlanarVector (one object)", a, a);
+        vec_arith<LL, T>("PlanarVector (one object)", a, a, (T)2);
+      }
       // embeddings: Vector(PlanarVector) and back
       expect<T>("Vector(PlanarVector)", V(a), rv<LL>(a), DESC1(a));
       expect<T>("PlanarVector(Vector)", PV(V(a)), rv<LL>(a), DESC1(a));
@@ -440,6 +466,7 @@ void integer_grids() {
     }
     if (!E.IsSymmetric()) vf::viol(std::string("tensor|Dyad(SymmetricDyad).IsSymmetric|") + vf::TName<T>::value, "{\"operands\":" + vf::comps_hex(A) + "}");
     mat_arith<LL, T>("SymmetricDyad", A, sd_at<T>((k * 7 + 3) % nsd, 5, 2), (T)-2);
+    if (k % 7 == 0) mat_arith<LL, T>("SymmetricDyad (one object)", A, A, (T)3);
   }
   // dyads over {-1,0,1}^9 (thorough: unary ops also over {-2..2}^9 subsampled by part)
   const long nd = ipow(3, 9);
@@ -453,6 +480,7 @@ void integer_grids() {
     const bool sym = A.xy() == A.yx() && A.xz() == A.zx() && A.yz() == A.zy();
     if (A.IsSymmetric() != sym) vf::viol(std::string("tensor|Dyad.IsSymmetric|") + vf::TName<T>::value, "{\"operands\":" + vf::comps_hex(A) + "}");
     mat_arith<LL, T>("Dyad", A, d_at<T>((k * 5 + 11) % nd, 3, 1), (T)3);
+    if (k % 7 == 0) mat_arith<LL, T>("Dyad (one object)", A, A, (T)-2);
   }
   if (thorough) {
     const long nd5 = ipow(5, 9);
